@@ -10,7 +10,7 @@ HOSTS = ['a.test', 'b.test', 'c.test']
 IPS = {'a.test': '10.0.0.1', 'b.test': '10.0.0.2', 'c.test': '10.0.0.3'}
 
 DEFAULT_OPTS = dict(recursive=1, level=0, pagereq=0, spanhosts=0, strong=1, tries=2, maxredir=3, robots=0, auth=0, sitemaps=0,
-                    tags='')
+                    tags='', noparent=0)
 
 
 def U(i, kind='page', links=(), host='a.test', rto=0, rejected=0, disallowed=0, nofollow=0, path=None, **kw):
@@ -63,7 +63,7 @@ def header(scn):
                       if by[i]['kind'] in ('page', 'redirect', 'css', 'sitemap', 'robotsfile') else 'other'
                       for i in range(1, n + 1)],
                 rto=[by[i].get('rto', 0) for i in range(1, n + 1)],
-                rejected=[by[i]['rejected'] for i in range(1, n + 1)],
+                rejected=[1 if (by[i]['rejected'] or (scn['opts'].get('noparent') and by[i].get('outside'))) else 0 for i in range(1, n + 1)],
                 disallowed=[by[i]['disallowed'] for i in range(1, n + 1)],
                 nofollow=[by[i]['nofollow'] for i in range(1, n + 1)],
                 robotskind=rk, opts=dict(scn['opts'], N=scn['N']), benign=scn['benign'], name=scn['name'])
@@ -116,6 +116,8 @@ def argv(scn, db, directory):
         a.append('--sitemaps')
     if o.get('tags'):
         a += o['tags'].split()
+    if o.get('noparent'):
+        a.append('--no-parent')
     if o['auth'] == 1:
         a += ['--http-user', 'u', '--http-password', 'p']
     elif o['auth'] == 2:
@@ -198,10 +200,36 @@ def c01_catalogue(quick):
     css = [U(1, links=[dict(to=2, css=1, inline=1), 6]), U(2, kind='css', path='/s/a.css', links=[dict(to=3, imp=1), dict(to=4)]),
            U(3, kind='css', path='/s/b.css', links=[dict(to=5)]), U(4, path='/s/i4.png'), U(5, path='/s/i5.png'), U(6)]
     out.append(scenario('css-import-chain', css, dict(pagereq=1), N=1))
+    # a URL met first through a link that is too deep and later (sequentially) as a requisite of a shallower page
+    req = [U(1, links=[2, 3]), U(2, links=[4]), U(3, links=[dict(to=4, inline=1), 5]), U(4), U(5, links=[dict(to=6, inline=1)]), U(6)]
+    out.append(scenario('too-deep-link-then-requisite', req, dict(level=1, pagereq=1), N=1))
+    out.append(scenario('too-deep-link-then-requisite-L2', [U(1, links=[2]), U(2, links=[3, 4]), U(3, links=[5]),
+                                                             U(4, links=[dict(to=5, inline=1)]), U(5)],
+                        dict(level=2, pagereq=1), N=1))
+    # --no-parent with the start URL in the root directory / in a subdirectory
+    np_root = [U(1, links=[2, 3]), U(2, path='/dir/p2', links=[4]), U(3, path='/p3'), U(4, path='/dir/sub/p4')]
+    out.append(scenario('noparent-root-start', np_root, dict(noparent=1), N=1))
+    np_sub = [U(1, path='/docs/index.html', links=[2, 3, 4]), U(2, path='/docs/a/p2', links=[3]), U(3, path='/docs/p3'),
+              U(4, path='/other/p4', outside=1), U(5, path='/docs-old/p5', outside=1)]
+    np_sub[0]['links'].append(dict(to=5))
+    out.append(scenario('noparent-subdir-start', np_sub, dict(noparent=1), N=1))
     sm = sitemap_sites()
     for nm in ('basic', 'missing', 'skipped'):
         out.append(scenario('sitemaps-%s' % nm, sm[nm], dict(sitemaps=1), N=1))
     out.append(scenario('sitemaps-basic-N2', sm['basic'], dict(sitemaps=1), N=2))
+    # two start URLs on one host name but different ports: each origin has its own control files
+    tp = [U(1, links=[dict(to=3, implicit=1), dict(to=4, implicit=1)]),
+          U(2, port=8080, path='/', links=[dict(to=5, implicit=1), dict(to=6, implicit=1)]),
+          U(3, path='/robots.txt', kind='robotsfile', links=[]), U(4, path='/sitemap.xml', kind='sitemap', links=[7]),
+          U(5, port=8080, path='/robots.txt', kind='robotsfile', links=[]),
+          U(6, port=8080, path='/sitemap.xml', kind='sitemap', links=[8]), U(7), U(8, port=8080, path='/p8')]
+    out.append(scenario('sitemaps-two-ports', tp, dict(sitemaps=1), N=1, start=(1, 2)))
+    th = [U(1, links=[dict(to=3, implicit=1), dict(to=4, implicit=1)]),
+          U(2, host='b.test', path='/', links=[dict(to=5, implicit=1), dict(to=6, implicit=1)]),
+          U(3, path='/robots.txt', kind='notfound'), U(4, path='/sitemap.xml', kind='sitemap', links=[7]),
+          U(5, host='b.test', path='/robots.txt', kind='robotsfile', links=[6]),
+          U(6, host='b.test', path='/sitemap.xml', kind='sitemap', links=[8]), U(7), U(8, host='b.test')]
+    out.append(scenario('sitemaps-two-hosts', th, dict(sitemaps=1), N=2, start=(1, 2)))
     out.append(scenario('sitemaps-basic-L1', sm['basic'], dict(sitemaps=1, level=1), N=1))
     out.append(scenario('sitemaps-basic-L2', sm['basic'], dict(sitemaps=1, level=2), N=1))
     # the answer to a page arrives in two parts (head, body) while another worker's redirect is handled in between
